@@ -214,26 +214,52 @@ func (t *Tr) emitRelevantAxioms() error {
 		scan(d)
 	}
 	type ax struct {
-		text string
-		syms []string
-		src  string
+		text  string
+		syms  []string
+		src   string
+		decls []string // declarations (string constants, ghost functions) this axiom's text needs
+		seen  []string // their funSeen keys
+		strs  []string // string constants it introduced
 	}
 	var all []ax
-	saveFun := t.vc.FunDecl
 	for _, a := range t.w.CS.Axioms {
 		env := &Env{t: t, vars: map[string]Val{}, pkg: a.Pkg, pure: true}
 		before := len(t.vc.FunDecl)
+		seenBefore := map[string]bool{}
+		for k := range t.vc.funSeen {
+			seenBefore[k] = true
+		}
+		strsBefore := map[string]bool{}
+		for k := range t.vc.strs {
+			strsBefore[k] = true
+		}
 		s, e := env.evalBool(a.E)
+		var x ax
+		// whatever the evaluation declared is taken back; it is re-added only
+		// if the axiom is selected (keeps unrelated constants out of the query)
+		x.decls = append(x.decls, t.vc.FunDecl[before:]...)
+		t.vc.FunDecl = t.vc.FunDecl[:before]
+		for k := range t.vc.funSeen {
+			if !seenBefore[k] {
+				x.seen = append(x.seen, k)
+				delete(t.vc.funSeen, k)
+			}
+		}
+		for k := range t.vc.strs {
+			if !strsBefore[k] {
+				x.strs = append(x.strs, k)
+				delete(t.vc.strs, k)
+			}
+		}
 		if e != nil {
 			if strings.Contains(e.Error(), "unknown type") {
-				t.vc.FunDecl = t.vc.FunDecl[:before]
 				continue // axiom over a package that is not loaded in this run
 			}
 			return fmt.Errorf("%s:%d: axiom: %v", a.File, a.Line, e)
 		}
-		all = append(all, ax{"(assert " + s + ")", gfTok.FindAllString(s, -1), a.Src})
+		x.text, x.syms, x.src = "(assert "+s+")", gfTok.FindAllString(s, -1), a.Src
+		all = append(all, x)
 	}
-	_ = saveFun
 	added := map[int]bool{}
 	for changed := true; changed; {
 		changed = false
@@ -252,6 +278,24 @@ func (t *Tr) emitRelevantAxioms() error {
 			}
 			added[i] = true
 			changed = true
+			for _, k := range a.seen {
+				t.vc.funSeen[k] = true
+			}
+			for _, d := range a.decls {
+				dup := false
+				for _, o := range t.vc.FunDecl {
+					if o == d {
+						dup = true
+					}
+				}
+				if !dup {
+					t.vc.FunDecl = append(t.vc.FunDecl, d)
+				}
+			}
+			// (ids of string constants are a hash of the text: re-registering gives the id the axiom text uses)
+			for _, k := range a.strs {
+				t.vc.strConst(k)
+			}
 			t.vc.FunDecl = append(t.vc.FunDecl, a.text)
 			t.vc.Trusted["axiom "+a.src] = true
 			for _, sy := range a.syms {
